@@ -70,6 +70,41 @@ Section Rebase.
       end.
 End Rebase.
 
+(** * executable side conditions of the there-and-back law (C08, C09) *)
+Fixpoint sortedb (l : list N) : bool :=
+  match l with
+  | a :: (b :: _) as r => (a <? b)%N && sortedb r
+  | _ => true
+  end.
+(** Names strictly ascending and no empty directory, at every level (what backends store). *)
+Fixpoint wfb (fuel : nat) (t : tree) : bool :=
+  sortedb (map fst t)
+  && forallb (fun e => match snd e with
+                       | Tree s => match fuel with
+                                   | O => false
+                                   | S f => negb (match s with [] => true | _ => false end) && wfb f s
+                                   end
+                       | _ => true
+                       end) t.
+(** The changes [b -> b'] and [b -> t] touch disjoint entries: at every name one of them left
+    the entry alone, or both changed a directory, not trivially mergeable, recursively
+    disjoint. *)
+Fixpoint disjb (accept : bool) (fuel : nat) (b' b t : tree) : bool :=
+  forallb (fun n =>
+             let x' := lookup n b' in
+             let x := lookup n b in
+             let y := lookup n t in
+             oval_eqb y x || oval_eqb x' x
+             || match fuel with
+                | O => false
+                | S f =>
+                    match tm accept [x'; x; y] with
+                    | Some _ => false
+                    | None => is_tree [x'; x; y] && disjb accept f (to_tree x') (to_tree x) (to_tree y)
+                    end
+                end)
+          (names [b'; b; t]).
+
 (** * the graph specification of common_ancestors, executable *)
 Section Graph.
   (** parents of commit [i] = [nth i parents []], all smaller than [i] *)
